@@ -437,6 +437,6 @@ def _scripted_cases(max_ops):
 def checks(tier):
     q = tier == "quick"
     return [
-        Check("generic", _run_generic, strategy=_generic_cases(4 if q else 6), examples={"quick": 6000, "thorough": 16 * 30000}, shards={"quick": 8, "thorough": 16}),
-        Check("scripted", _run_scripted, strategy=_scripted_cases(2 if q else 3), examples={"quick": 3200, "thorough": 16 * 15000}, shards={"quick": 8, "thorough": 16}),
+        Check("generic", _run_generic, strategy=_generic_cases(4 if q else 6), examples={"quick": 6000, "thorough": 16 * 20000}, shards={"quick": 8, "thorough": 16}),
+        Check("scripted", _run_scripted, strategy=_scripted_cases(2 if q else 3), examples={"quick": 3200, "thorough": 16 * 10000}, shards={"quick": 8, "thorough": 16}),
     ]
